@@ -14,6 +14,8 @@ mod json;
 mod pipe;
 mod props_dec;
 mod props_pipe;
+mod props_proto;
+mod proto;
 mod refinf;
 mod rng;
 mod runner;
@@ -27,6 +29,7 @@ fn registry() -> Vec<CheckDef> {
     let mut v = Vec::new();
     v.extend(props_dec::defs());
     v.extend(props_pipe::defs());
+    v.extend(props_proto::defs());
     v
 }
 
